@@ -128,6 +128,26 @@ fn run_case(case: &str, c: &Value, rng: &mut Rng) -> Vec<Value> {
         Some(p) => evs.push(json!({"ev":"Parse","case":case,"res":pres,"nimg":level_sizes(p).len(),"stok":dtok(p),"lens":level_sizes(p)})),
         None => evs.push(json!({"ev":"Parse","case":case,"res":pres,"nimg":0,"stok":"-","lens":[]})),
     }
+    // every level of the parsed texture decoded: dimensions as the decoder reports them (for JPEG these are
+    // the dimensions in the JPEG stream itself)
+    if let Some(p) = &parsed {
+        let n = level_sizes(p).len();
+        let mut dims: Vec<Value> = Vec::new();
+        let mut lres = "ok".to_string();
+        for i in 0..n {
+            let (r, d) = class(guarded(|| blp_to_image(p, i)));
+            match d {
+                Some(d) => dims.push(json!([d.width(), d.height()])),
+                None => {
+                    dims.push(json!([0, 0]));
+                    if lres == "ok" {
+                        lres = r;
+                    }
+                }
+            }
+        }
+        evs.push(json!({"ev":"Levels","case":case,"res":lres,"dims":dims}));
+    }
     if let (Some(p), true) = (&parsed, enc == "raw1" || enc == "raw3") {
         let (dres, dec) = class(guarded(|| blp_to_image(p, 0)));
         let mut pal_bad = 0usize;
